@@ -76,7 +76,7 @@ def run_fns(ctx, fns, princ=None, tag=""):
             continue          # ill-typed by the rules (clash / occurs check): not a function of the profile
         if getattr(f, "selfcalls", 0) and p.get("resonly", 0) > 0:
             continue          # a recursive call whose result type nothing determines (let f x = f x): Go cannot infer that type argument
-        ground = [q for q, g in zip(f.params, p["ground"]) if g]
+        ground = [q for q, g in zip(f.params, p["ground"]) if g] if not getattr(f, "deps", None) else []      # (callers: the un-annotated version only)
         subsets = [()]
         for k in range(1, len(ground) + 1):
             subsets += list(itertools.combinations(ground, k))
